@@ -51,6 +51,10 @@ class Loose(Base):
         self.p0, self.kw = p0, kw
         rec(self, p0=p0, **kw)
 
+class BadDef(Base):
+    def __init__(self, lr: int = 0.5):
+        rec(self, lr=lr)
+
 class Abstract(abc.ABC):
     @abc.abstractmethod
     def run(self): ...
@@ -240,6 +244,10 @@ def case(ctx, i, rng):
         ctx.violation("class_path", "valid-spec-rejected/concrete-by-name/Abstract", dict(outcome=o.brief()))
     else:
         check_instantiation(ctx, mod, pa, o.value, mod.Concrete, {"k": 7}, None, dict(kind="concrete-by-name"))
+    if rng.random() < 0.35:
+        # a parse that fails while the defaults of the selected class are added must not influence what follows
+        ob = call(parser_for(mod.Base, mod).parse_args, ["--a=BadDef"])
+        ctx.count("ev.failing_parse_in_class_defaults." + ("rejected" if ob.rejected else ob.kind))
     short_vs_explicit(ctx, rng, mod)
     nested(ctx, rng, mod)
     class_change(ctx, rng, mod)
@@ -296,6 +304,8 @@ def nested(ctx, rng, mod):
     child_cls = rng.choice([mod.SubA, mod.Base, mod.Req])
     cia = valid_init_args(rng, mod, child_cls)
     many = [{"class_path": f"{M}.SubA", "init_args": {"p0": 21}}, {"class_path": f"{M}.Base", "init_args": {"p1": "mm"}}] if rng.random() < 0.6 else None
+    if many is not None and rng.random() < 0.6:
+        many.append({"class_path": f"{M}.Loose", "init_args": {"p0": 23}, "dict_kwargs": {"extra_kw": 99}})
     named = {"k1": {"class_path": f"{M}.SubA", "init_args": {"extra": 3.5}}} if rng.random() < 0.5 else None
     either = rng.choice([7, {"class_path": f"{M}.Base", "init_args": {"p0": 31}}])
     spec = {"class_path": f"{M}.Holder", "init_args": {"child": {"class_path": f"{M}.{child_cls.__name__}", "init_args": cia}, "n": 2, "many": many, "named": named, "either": either}}
@@ -327,8 +337,22 @@ def nested(ctx, rng, mod):
         if getattr(hk["child"], k, None) != v:
             ctx.violation("instantiate", "nested/child-argument-differs", dict(w, parameter=k, expected=v, got=getattr(hk["child"], k, None)))
             return
-    if many is not None and (not isinstance(hk["many"], list) or [type(x).__name__ for x in hk["many"]] != ["SubA", "Base"] or hk["many"][0].p0 != 21):
+    if many is not None and (not isinstance(hk["many"], list) or [type(x).__name__ for x in hk["many"]][:2] != ["SubA", "Base"] or hk["many"][0].p0 != 21):
         ctx.violation("instantiate", "nested/list-of-classes-wrong", dict(w, got=short(hk["many"])))
+    if many is not None and len(many) == 3:
+        # the same configuration instantiated again must build the list items with the same arguments (dict_kwargs included)
+        for attempt in (1, 2):
+            lo = [x for x in hk["many"] if type(x).__name__ == "Loose"]
+            if not lo or lo[0].kw != {"extra_kw": 99} or lo[0].p0 != 23:
+                ctx.violation("instantiate", f"nested/list-item-dict_kwargs-wrong/instantiate-call-{attempt}", dict(w, got=short([vars(x) for x in lo])))
+                break
+            mod.CALLS.clear()
+            o2 = call(p.instantiate_classes, o.value)
+            if not o2.accepted:
+                ctx.violation("instantiate", f"second-instantiate-failed/{o2.exc_type}", dict(w, outcome=o2.brief()))
+                break
+            hk = [c for c in mod.CALLS if c[0] == "Holder"][0][2]
+        return
     if named is not None and (not isinstance(hk["named"], dict) or type(hk["named"].get("k1")).__name__ != "SubA" or hk["named"]["k1"].extra != 3.5):
         ctx.violation("instantiate", "nested/dict-of-classes-wrong", dict(w, got=short(hk["named"])))
     if isinstance(either, dict) and (type(hk["either"]).__name__ != "Base" or hk["either"].p0 != 31):
@@ -337,7 +361,7 @@ def nested(ctx, rng, mod):
         ctx.violation("instantiate", "nested/union-int-wrong", dict(w, got=short(hk["either"])))
     # exactly once each
     ids = [c[1] for c in mod.CALLS if c[0] != "Base" or type(c[3]).__name__ == "Base"]
-    n_expected = 1 + 1 + (2 if many else 0) + (1 if named else 0) + (1 if isinstance(either, dict) else 0)
+    n_expected = 1 + 1 + (len(many) if many else 0) + (1 if named else 0) + (1 if isinstance(either, dict) else 0)
     if len(set(ids)) != n_expected:
         ctx.violation("instantiate", "nested/number-of-constructed-objects-differs", dict(w, expected=n_expected, calls=order))
 
